@@ -30,6 +30,7 @@ func runC01(c *engine.Ctx) {
 	checkRecycle(c, "R8")
 	checkRouterDuplicates(c, "R9")
 	checkGracefulClose(c, "R10")
+	checkWrapperCloseFns(c, "R11") // shared with C10.R12: closing the limiter wrapper must close the tunnel stream
 }
 
 // ---- R2 ----
